@@ -12,6 +12,9 @@ Correspondence: Lean `pyRepr`/`pyUnquote` vs Python `repr` / `ast.literal_eval`;
 found in the captured code.
 Feature models (harness/feat15.py, `feat_case`): the same oracle on shapes outside the type grammar (user-defined scalar
 types in Unions / under Patterns, several aliases, text-keyed TypedDicts, tag keys with catch-alls, string operands).
+Identity renaming (`twin_check`, and the twin of a feature model): every model is also defined a SECOND time with the same
+spelling (the same definitions executed again: new classes, equal names) and used after the first; each copy must load into
+its own classes and dump alike, and the first must be unaffected — equal spelling does not merge two models.
 """
 from __future__ import annotations
 
@@ -343,6 +346,28 @@ def feat_case(ctx, rng, i, engine, fld_pool, cls_pool):
                     ctx.fail('feat:dump', dict(case, doc=d2), f'dump of the loaded instance, renamed model: {json.dumps(ob[1])[:400]}; '
                              f'benign spelling: {json.dumps(oa[1])[:400]}', detail=det)
                     break
+            else:
+                # ---- the identity renaming: the same source executed once more (same spelling — incl. __qualname__s —, new classes);
+                # each copy loads into its own classes (Side.canon identifies classes by identity), the first one is unaffected
+                which = 'benign' if (i // 2) % 2 == 0 else 'adversarial'
+                first = a if which == 'benign' else b
+                try:
+                    twin = first.twin()
+                except Exception as e:      # noqa
+                    ctx.fail('feat:twin-build', dict(case, twin_of=which), f'the same source does not build a second time: {e!r}'[:500], detail=det)
+                    return case
+                try:
+                    for kind, d1, d2 in docs:
+                        d = d1 if which == 'benign' else d2
+                        o1, o2, o3 = feat15.observe(first, d), feat15.observe(twin, d), feat15.observe(first, d)
+                        ctx.count('feat_twin')
+                        if C.canon(o1) != C.canon(o2) or C.canon(o1) != C.canon(o3):
+                            ctx.fail('feat:twin', dict(case, twin_of=which, doc=d), f'[load, dump] by a second, identically spelled definition of the model: '
+                                     f'{json.dumps(o2)[:500]}; by the first definition: {json.dumps(o1)[:500]}; by the first again afterwards: '
+                                     f'{json.dumps(o3)[:300]} ("foreign" = an instance of a class that is not the copy\'s own)', detail=det)
+                            break
+                finally:
+                    twin.close()
         finally:
             b.close()
     finally:
@@ -557,6 +582,50 @@ def outcome(fn, s: Side):
         return ['err', 'raw:' + type(e).__name__]
 
 
+def twin_check(ctx, case, first: Side, root, docs, det):
+    """Equal spelling does not merge two models.  `first` has been built from `root` and used; the same definitions are now
+    executed a second time (another module: a factory called twice, a re-imported / re-executed definition) and the copy is
+    driven through the same documents, the first model again after it.  The copy is the renaming of the model under the
+    identity map, so load / dump must correspond like for any other renaming — in particular every instance, Enum member
+    and NamedTuple in a result of the copy must be of the COPY's classes (canon_obj identifies classes by identity) — and
+    the first model must not be affected by the existence of the copy."""
+    from dataclass_wizard import fromdict, asdict
+    try:
+        twin = Side(root)
+    except Exception as e:      # noqa
+        ctx.fail('rename:twin-build', case, f'the same definitions do not build a second time: {e!r}'[:500], detail=det)
+        return
+    try:
+        for kind, d in docs:
+            got = {}
+
+            def load(side, tag, d=d):
+                def f():
+                    got[tag] = fromdict(side.built.root, copy.deepcopy(d))
+                    return got[tag]
+                return outcome(f, side)
+            o1 = load(first, 'first')
+            o2 = load(twin, 'twin')
+            o3 = load(first, 'again')
+            ctx.seen('rename:twin-' + kind, case, nontrivial=False)
+            if C.canon(o1) != C.canon(o2):
+                ctx.fail('rename:twin-load', dict(case, doc=d, kind=kind), f'load by a second, identically spelled definition of the model: {json.dumps(o2)[:500]}; '
+                         f'by the first definition: {json.dumps(o1)[:500]} ("foreign" = an instance of a class that is not the copy\'s own)', detail=det)
+                break
+            if C.canon(o1) != C.canon(o3):
+                ctx.fail('rename:twin-load', dict(case, doc=d, kind=kind), f'load by the first definition after its identically spelled copy was used: '
+                         f'{json.dumps(o3)[:500]}; before: {json.dumps(o1)[:500]}', detail=det)
+                break
+            if o1[0] == 'ok':
+                d1, d2 = outcome_dump(lambda: asdict(got['first'])), outcome_dump(lambda: asdict(got['twin']))
+                if d1[0] != d2[0] or (d1[0] == 'ok' and C.canon(canon_dump(got['first'], d1[1], first)[0]) != C.canon(canon_dump(got['twin'], d2[1], twin)[0])):
+                    ctx.fail('rename:twin-dump', dict(case, doc=d, kind=kind), f'dump by a second, identically spelled definition: {str(d2)[:400]}; by the first: '
+                             f'{str(d1)[:400]}', detail=det)
+                    break
+    finally:
+        twin.close()
+
+
 def mutate_docs(rng, doc_a, doc_b):
     """the same positional mutations applied to both documents (top level): drop the k-th key / junk the k-th value"""
     out = []
@@ -633,7 +702,10 @@ def run(ctx: C.Ctx):
                 'pattern strings), several load aliases per field (both engines), functional TypedDicts with text keys (required / '
                 'NotRequired / total=False), tagged roots and tagged Union members with text tag keys × CatchAll × unknown-key policies, '
                 'string operands of skip conditions and string defaults; rendered under benign and adversarial names (text incl. runs of '
-                'blanks), loaded from the correspondingly keyed documents and dumped back; results compared positionally.')
+                'blanks), loaded from the correspondingly keyed documents and dumped back; results compared positionally. '
+                'Every model (original or renamed, benign or adversarial, alternating) is also defined a second time with the SAME spelling '
+                '(definitions re-executed in another module) and used after the first: the copy loads into its own classes (class identity), '
+                'dumps alike, and the first model is unaffected.')
     ctx.assumptions += ['strings with lone surrogates are outside the Lean Char type and not generated',
                         'field names that are attributes of JSONWizard itself (to_dict, from_json, ...) or start with "__" are excluded: '
                         'they conflict with the class API / Python name mangling, not with the generators']
@@ -754,6 +826,10 @@ def run(ctx: C.Ctx):
                                 ctx.fail('rename:load-' + kind, dict(case, doc=d2), f'load of the renamed document by the renamed model: {json.dumps(ob)[:400]}; '
                                          f'original: {json.dumps(oa)[:400]}', detail=det)
                                 break
+                        # ---- the identity renaming: the same definitions executed once more (same spelling, new classes)
+                        which = 'original' if (i // 2) % 2 == 0 else 'renamed'
+                        twin_check(ctx, dict(case, twin_of=which), a if which == 'original' else b, M if which == 'original' else R,
+                                   [(kind, d1 if which == 'original' else d2) for kind, d1, d2 in docs], det)
                     finally:
                         b.close()
                 finally:
